@@ -349,6 +349,8 @@ func c17RunCase(t *testing.T, k c17Knobs, seed int64) (obs c17Obs) {
 	var msgID atomic.Int64
 	var afterAccepted atomic.Int64
 	var afterWitness atomic.Value
+	var afterTarget atomic.Int64
+	afterTarget.Store(-1)
 	var sendsAfter atomic.Int64
 	nextFresh := atomic.Int64{}
 	nextFresh.Store(int64(k.Grains))
@@ -373,6 +375,7 @@ func c17RunCase(t *testing.T, k c17Knobs, seed int64) (obs c17Obs) {
 				m := &c17Msg{ID: msgID.Add(1), Dwell: dwell}
 				var err error
 				what := ""
+				target := -1 // index of the tree actor addressed (-1: a grain)
 				switch c := srng.Intn(10); {
 				case activator && c < 3:
 					idx := int(nextFresh.Add(1))
@@ -385,7 +388,9 @@ func c17RunCase(t *testing.T, k c17Knobs, seed int64) (obs c17Obs) {
 						cs.log.add("grain-identity-returned", idx, 0)
 					}
 				case c < 6 || len(idents) == 0:
-					n := nodes[srng.Intn(len(nodes))]
+					ti := srng.Intn(len(nodes))
+					target = ti
+					n := nodes[ti]
 					if srng.Intn(5) == 0 {
 						m.Ask = true
 						what = "Ask"
@@ -412,6 +417,7 @@ func c17RunCase(t *testing.T, k c17Knobs, seed int64) (obs c17Obs) {
 					if err == nil {
 						afterAccepted.Add(1)
 						afterWitness.Store(what)
+						afterTarget.Store(int64(target))
 					}
 					time.Sleep(200 * time.Microsecond)
 				}
@@ -598,10 +604,30 @@ func c17RunCase(t *testing.T, k c17Knobs, seed int64) (obs c17Obs) {
 			}
 		}
 	}
+	// an actor that stop traffic aimed at (PoisonPill / ctx.Shutdown / Stop(child)) is
+	// "stopping on its own"; its descendants are stopped by that same flow
+	ownStop := func(i int) string {
+		if i < 0 || i >= len(nodes) {
+			return ""
+		}
+		if stopTargeted[i].Load() {
+			return ":actor-stopping-on-its-own"
+		}
+		for p := nodes[i].parent; p >= 0; p = nodes[p].parent {
+			if stopTargeted[p].Load() {
+				return ":ancestor-stopping-on-its-own"
+			}
+		}
+		return ""
+	}
 	// 1. PostStop exactly once for every user actor
 	for i, n := range nodes {
 		if c := len(psEnter[i]); c != 1 {
-			viol(fmt.Sprintf("poststop-count:%d", c), map[string]any{"actor": i, "stopped_before_system_stop": n.prestop, "targeted_by_stop_traffic": stopTargeted[i].Load(), "poststop_enter_seqs": psEnter[i], "stop_called_seq": stopCalled, "barrier_seq": barrier})
+			q := ""
+			if c == 0 {
+				q = ownStop(i)
+			}
+			viol(fmt.Sprintf("poststop-count:%d", c)+q, map[string]any{"actor": i, "stopped_before_system_stop": n.prestop, "targeted_by_stop_traffic": stopTargeted[i].Load(), "poststop_enter_seqs": psEnter[i], "stop_called_seq": stopCalled, "barrier_seq": barrier})
 			break
 		}
 	}
@@ -624,10 +650,7 @@ func c17RunCase(t *testing.T, k c17Knobs, seed int64) (obs c17Obs) {
 	for i := range nodes {
 		for _, s := range psExit[i] {
 			if s > barrier {
-				sig := "poststop-after-stop-returned"
-				if stopTargeted[i].Load() {
-					sig += ":actor-stopping-on-its-own"
-				}
+				sig := "poststop-after-stop-returned" + ownStop(i)
 				viol(sig, map[string]any{"actor": i, "targeted_by_stop_traffic": stopTargeted[i].Load(), "poststop_exit_seq": s, "barrier_seq": barrier})
 				break
 			}
@@ -678,7 +701,8 @@ func c17RunCase(t *testing.T, k c17Knobs, seed int64) (obs c17Obs) {
 	// 6. sends issued after the barrier must fail
 	if n := afterAccepted.Load(); n > 0 {
 		w, _ := afterWitness.Load().(string)
-		viol("send-accepted-after-stop-returned:"+w, map[string]any{"accepted": n, "sends_after_barrier": obs.SendsAfter})
+		ti := int(afterTarget.Load())
+		viol("send-accepted-after-stop-returned:"+w+ownStop(ti), map[string]any{"accepted": n, "sends_after_barrier": obs.SendsAfter, "target_actor": ti})
 	}
 	obs.NonTrivial = obs.DuringStop > 0 && obs.Actors > 1
 	return obs
